@@ -281,7 +281,8 @@ class BoundedGaussian(Gaussian):
             The name of the parameter.
         """
 
-        if mu < lower_bound or mu > upper_bound or lower_bound == upper_bound:
+        # (written so that nan bounds are rejected as well)
+        if not lower_bound <= mu <= upper_bound or lower_bound == upper_bound:
             raise ParameterSpecificationError(
                 "Lower bound {} must be less than mean {}. Upper bound {} must"
                 " be greater than mean.")
